@@ -16,7 +16,7 @@ from mc import core, impl, explore, structcheck
 from mc.impl import nfa, call
 from mc.checks.C18 import word_with, pairs
 
-PROFILES = [('full', 4000, 60000), ('adds', 3000, 40000), ('fwd', 20000, 200000), ('deep', 70000, 600000), ('toggle', 1500, 10000)]
+PROFILES = [('full', 4000, 60000), ('adds', 3000, 40000), ('fwd', 20000, 200000), ('deep', 70000, 600000), ('toggle', 1500, 1500)]
 NEST_DEPTH = {'quick': 2, 'thorough': 3}
 
 
